@@ -1,5 +1,6 @@
 """C18 — backward chaining: renaming apart depends on the goal; chaining consults every rule component."""
 from lib import facts as F
+from lib import guards as G
 from lib import cover
 from lib.taint import Taint
 
@@ -220,20 +221,63 @@ def r3_r4_r5(R, helper):
     # ---- R5: the premise loop
     rec = [c for c in helper.calls() if c.key == helper.key]
     R.ob("C18-R5", "recursion", "the chaining helper solves premises by calling itself (found %d call)" % len(rec), len(rec) >= 1, where=helper.where())
+    # the cut: the first switch of the helper compares the depth parameter with a constant; on the cutting edge nothing is searched
+    cut = None
+    for bb, t in helper.terms():
+        if t["t"] != "switch":
+            continue
+        for tgt, cd in G.edge_conditions(helper, bb):
+            if cd.get("kind") != "cmp" or cd.get("truth") is not True:
+                continue
+            n = G.normalize_cmp(helper, cd)
+            if n is None:
+                continue
+            op, xa, xb = n
+            if F.op_place(xa) and helper.alias_root(xa) == 4 and F.const_int(xb) is not None:
+                pass
+            elif F.op_place(xb) and helper.alias_root(xb) == 4 and F.const_int(xa) is not None:
+                op, xa, xb = G.SWAP[op], xb, xa
+            else:
+                continue
+            # the cutting edge is the one from which no recursive call is reachable
+            if not any(c.bb in helper.reach_from([tgt]) for c in rec):
+                cut = (op, F.const_int(xb))
+        if cut is not None:
+            break
+    roots = [y.const_value(c.args[3]) for y in prog.bodies.values() if y.crate == "datalog" and "::tests::" not in y.key and y.key != helper.key
+             for c in y.calls() if c.key == helper.key and len(c.args) > 3]
     for c in rec:
-        # depth + 1
+        # depth + k or remaining - k
         o = helper.origin(c.args[3], stop_named=False)
-        plus1 = False
+        step = None
         rv = o[1] if o[0] == "rv" else None
         if o[0] == "place":
             d = helper.single_def(o[1]["l"])
             rv = d[3] if d and d[0] == "assign" else None
-        if rv is not None and rv["rv"] == "binop" and rv["op"].startswith("Add"):
+        if rv is not None and rv["rv"] == "binop" and (rv["op"].startswith("Add") or rv["op"].startswith("Sub")):
             ca, cb = F.const_int(rv["a"]), F.const_int(rv["b"])
-            other = rv["b"] if ca is not None else rv["a"]
-            k = ca if ca is not None else cb
-            plus1 = k is not None and k >= 1 and helper.alias_root(other) == 4
-        R.ob("C18-R5", "deeper", "a premise is solved at depth + k, k >= 1 (termination bound applies along every branch)", plus1, where=helper.where(c.ln))
+            if rv["op"].startswith("Add"):
+                other = rv["b"] if ca is not None else rv["a"]
+                k = ca if ca is not None else cb
+                if k is not None and k >= 1 and helper.alias_root(other) == 4:
+                    step = k
+            elif cb is not None and cb >= 1 and helper.alias_root(rv["a"]) == 4:
+                step = -cb
+        R.ob("C18-R5", "deeper", "a premise is solved one level further from the root: depth + k or remaining - k, k >= 1 (found step %s)" % step, step is not None,
+             where=helper.where(c.ln), detail=None if step is not None else "without progress of the bound the search does not terminate on recursive rules")
+        # how many nested rule applications the bound allows: not fewer than on the verified tree (MAX_DEPTH = 10 counted from 0: eleven levels)
+        levels = None
+        if step in (1, -1) and cut is not None and len(roots) >= 1 and all(r is not None for r in roots):
+            d0, (op, cv) = min(roots) if step == 1 else min(roots), cut
+            if step == 1:
+                d0 = max(roots)
+                levels = {"Gt": cv - d0 + 1, "Ge": cv - d0, "Eq": cv - d0}.get(op)
+            else:
+                d0 = min(roots)
+                levels = {"Eq": d0 - cv, "Le": d0 - cv, "Lt": d0 - cv + 1}.get(op)
+        R.ob("C18-R5", "bound", "the helper follows derivations that nest up to 10 rule applications, the documented bound (levels allowed: %s; cut %s, root %s, step %s)"
+             % (levels, cut, roots, step), levels is not None and levels >= 11, where=helper.where(c.ln),
+             detail=None if (levels is not None and levels >= 11) else "answers whose derivation sits exactly on the bound are no longer returned")
         # loop nest: inner loop over the accumulated solutions, outer loop over the premises
         inner = P.loop_driver(helper, c.bb)
         if inner is None or inner[2] is None:
